@@ -129,7 +129,8 @@ def run(ctx):
         "math.sqrt is strictly increasing on 0..700,000 (every radicand of get_color_distance is <= 649,740): checked exhaustively each run, "
         "so the argmin over sqrt(d2) is the argmin over the integer d2",
         "functools.lru_cache on Color.downgrade / get_ansi_codes / Palette.match is transparent (answers of the cached function and of the function behind the cache - getattr(f, '__wrapped__', f) - compared, not modelled)",
-        "Color.get_truecolor is modelled for the default terminal theme only",
+        "blend_rgb is modelled for cross_fade = k/2^n (n <= 40, |k| < 2^40: the double computation is exact there); other floats are not compared",
+        "parse_rgb_hex is modelled on ASCII strings (int(s, 16) also accepts Unicode digits/spaces: answered `unmodelled`)",
         "colour numbers / components are naturals; negative numbers and components above 255 answer `unmodelled`",
     ]
 
@@ -203,11 +204,16 @@ def run(ctx):
     for M in range(256):
         for m in range(M + 1):
             x = rng.randint(m, M)
-            arr = set(itertools.permutations((M, m, m))) | set(itertools.permutations((M, M, m)))
+            arr = set(itertools.permutations((M, m, m)))  # max and min in every position
+            arr.add(rng.choice(list(itertools.permutations((M, M, m)))))
             perm_x = list(itertools.permutations((M, x, m)))
             chosen = rng.choice(perm_x)
             all4.append(chosen)
-            for t in arr | set(perm_x):
+            if not ctx.quick:
+                arr |= set(itertools.permutations((M, M, m))) | set(perm_x)
+            else:
+                arr |= set(rng.sample(perm_x, 2))
+            for t in sorted(arr):
                 if t != chosen:
                     only256.append(t)
     ctx.note("gen:pairs(max,min)", 32896)
@@ -289,12 +295,98 @@ def run(ctx):
         ctx.exhaustive = True
         ctx.note("exhaustive:all 2^24 RGB x {standard,256,windows}", 3 * 2**24)
 
+    # ---- 6. get_truecolor under custom terminal themes (TerminalTheme.__init__: normal + (bright or normal))
+    from rich.terminal_theme import TerminalTheme
+
+    def rt():
+        return (rng.randrange(256), rng.randrange(256), rng.randrange(256))
+
+    def enc_list(l):
+        return "-" if l is None else "%d:%s" % (len(l), "|".join("%d,%d,%d" % t for t in l))
+
+    probe = [Color.default(), Color("d", ColorType.DEFAULT, 3), Color("x", ColorType.STANDARD), Color("t", ColorType.TRUECOLOR)]
+    probe += [Color("s", ColorType.STANDARD, n) for n in list(range(16)) + [16, 17, 40]]
+    probe += [Color("w", ColorType.WINDOWS, n) for n in (0, 7, 8, 15, 16)]
+    probe += [Color("e", ColorType.EIGHT_BIT, n) for n in (0, 15, 16, 231, 232, 255, 256)]
+    probe += [Color.from_triplet(ColorTriplet(*rt())) for _ in range(3)]
+    n_themes = 120 if ctx.quick else 3000
+    for i in range(n_themes):
+        bg, fgc = rt(), rt()
+        nn = rng.choice([8, 8, 8, 8, 8, 0, 1, 7, 9, 16])
+        normal = [rt() for _ in range(nn)]
+        kind = rng.choice(["none", "empty", "8", "8", "8", "short", "long"])
+        bright = None if kind == "none" else [] if kind == "empty" else [rt() for _ in range(8 if kind == "8" else rng.randint(1, 7) if kind == "short" else rng.randint(9, 12))]
+        theme = TerminalTheme(bg, fgc, list(normal), None if bright is None else list(bright))
+        ansi = normal + (bright if bright else normal)  # documented: bright=None repeats the normal colours
+        ctx.note(f"theme:normal{nn}:bright-{kind}")
+        ctx.check(tuple(theme.background_color) == bg and tuple(theme.foreground_color) == fgc and L.raw(theme.ansi_colors) == ansi, "TerminalTheme", (bg, fgc, normal, bright), "theme does not hold background, foreground and normal + (bright or normal)")
+        for c in probe:
+            for fg in (True, False):
+                ans, got = L.call(lambda: c.get_truecolor(theme, foreground=fg), L.enc_triplet)
+                ctx.case("color.truecolor_theme", ["%d,%d,%d" % bg, "%d,%d,%d" % fgc, enc_list(normal), enc_list(bright)] + L.color_fields(c) + [enc_bool(fg)], ans, shape=f"type{int(c.type)}:{ans[:3]}", sample=f"{c!r}.get_truecolor(TerminalTheme({bg},{fgc},<{nn} normal>,<{kind}>), foreground={fg})")
+                if L.wf(c):
+                    ty = int(c.type)
+                    table = {1: ansi, 2: orc.eight, 4: orc.win}.get(ty)
+                    want = tuple(c.triplet) if ty == 3 else (fgc if fg else bg) if ty == 0 else (table[c.number] if c.number < len(table) else None)
+                    if want is not None:
+                        ctx.check(got is not None and tuple(got) == want, "get_truecolor", (L.color_key(c), fg, bg, fgc, normal, bright), f"get_truecolor gave {ans}, the specified colour is {want}")
+    ctx.flush()
+
+    # ---- 7. ColorTriplet.hex, parse_rgb_hex, blend_rgb
+    from rich.color import blend_rgb, parse_rgb_hex
+
+    hex_ts = [(v, 255 - v, (v * 7) % 256) for v in range(256)] + [rt() for _ in range(1500 if ctx.quick else 30000)]
+    for t in hex_ts:
+        hx = ColorTriplet(*t).hex
+        ctx.case("color.hex", ["%d,%d,%d" % t], L.enc_str(hx), shape="hex")
+        ans, back = L.call(lambda: parse_rgb_hex(hx[1:]), L.enc_triplet)
+        ctx.check(back is not None and tuple(back) == t and len(hx) == 7 and hx[0] == "#", "parse_rgb_hex(hex)", t, f"parse_rgb_hex({hx[1:]!r}) gave {ans}")
+        ctx.check(hx == "#" + "".join("0123456789abcdef"[v >> 4] + "0123456789abcdef"[v & 15] for v in t), "ColorTriplet.hex", t, f"hex gave {hx!r}, not the CSS form #rrggbb in lower case")
+        ctx.case("color.parse_hex", [L.enc_str(hx[1:])], ans, shape="roundtrip")
+        ans, _ = L.call(lambda: parse_rgb_hex(hx[1:].upper()), L.enc_triplet)
+        ctx.case("color.parse_hex", [L.enc_str(hx[1:].upper())], ans, shape="upper")
+    for a in range(128):  # every two-character ASCII string in one of the three positions (int(.., 16) accepts more than hex digits)
+        for b in range(128):
+            pos = rng.randrange(3)
+            parts = ["%02x" % rng.randrange(256) for _ in range(3)]
+            parts[pos] = chr(a) + chr(b)
+            sx = "".join(parts)
+            ans, got = L.call(lambda: parse_rgb_hex(sx), L.enc_triplet)
+            ctx.case("color.parse_hex", [L.enc_str(sx)], ans, shape="pair:" + ans[:3], sample=f"parse_rgb_hex({sx!r})" if rng.random() < 0.01 else None)
+    for sx in ["", "f", "fffff", "fffffff", "ffffffff", "#ff8700", "ff 87 00", "fé0000", "٣٣0000"]:
+        ans, _ = L.call(lambda: parse_rgb_hex(sx), L.enc_triplet)
+        ctx.check(len(sx) == 6 or ans == "err:AssertionError", "parse_rgb_hex", sx, f"length {len(sx)} gave {ans}")
+        ctx.case("color.parse_hex", [L.enc_str(sx)], ans, shape="len%d" % len(sx))
+
+    def blend_case(t1, t2, k, n):
+        cf = k / 2**n  # exact
+        ans, got = L.call(lambda: blend_rgb(ColorTriplet(*t1), ColorTriplet(*t2), cf), L.enc_triplet)
+        ctx.case("color.blend", ["%d,%d,%d" % t1, "%d,%d,%d" % t2, k, n], ans[3:] if ans.startswith("ok ") else ans, shape=("in01" if 0 <= k <= 2**n else "outside"), sample=f"blend_rgb({t1},{t2},{k}/2^{n})" if rng.random() < 0.002 else None)
+        if got is not None and 0 <= k <= 2**n:
+            ok = all(isinstance(x, int) and min(p, q) <= x <= max(p, q) for x, p, q in zip(got, t1, t2))
+            ok = ok and (k != 0 or tuple(got) == t1) and (k != 2**n or tuple(got) == t2)
+            # integer part of the exact blend (int() truncates): p + (q-p)*k/2^n >= 0 here, so floor division is truncation
+            ok = ok and tuple(got) == tuple((p * 2**n + (q - p) * k) // 2**n for p, q in zip(t1, t2))
+            ctx.check(ok, "blend_rgb", (t1, t2, k, n), f"blend gave {tuple(got)}: not the integer part of the exact blend / not between its arguments / not an end point at cross_fade 0 or 1")
+
+    for a in range(256):  # cross_fade 0.5 (Style's dim-on-background blend) on every pair of channel values
+        for b in range(256):
+            blend_case((a, b, a), (b, a, 255 - b), 1, 1)
+    for _ in range(8000 if ctx.quick else 200000):
+        n = rng.randrange(0, 13)
+        k = rng.choice([0, 2**n, rng.randint(0, 2**n), rng.randint(0, 2**n), rng.randint(-(2**n), 2 * 2**n)])
+        blend_case(rt(), rt(), k, n)
+    ctx.flush()
+
     ctx.rule = (
         "exhaustive: all 32,896 (max,min) channel pairs (float facts directly, and through Color.downgrade in every channel arrangement), "
         "all 256 channel values, every index of the four palettes, all 256 numbers x {STANDARD, EIGHT_BIT, WINDOWS} + default + ill-formed "
         "colours x 4 target systems x fg/bg through downgrade / get_ansi_codes / get_truecolor; seeded: %d random RGB, %d colours at palette "
         "decision boundaries and on segments between palette entries, cube rounding thresholds; %d whole blue-rows (x 3 systems, 256 colours each) "
-        "uncached%s. distinct = distinct canonical requests (a dg_block request stands for 256 colours)."
+        "uncached%s; get_truecolor under seeded custom TerminalThemes (normal/bright of every length class) x 38 probe colours x fg/bg; ColorTriplet.hex / "
+        "parse_rgb_hex on every two-character ASCII string in a component position; blend_rgb at cross_fade 1/2 on all 65,536 channel pairs + seeded dyadic "
+        "cross-fades. Direct evaluation also pins the documented 256-colour mapping (grey test at 10%% saturation, grey ramp step, nearest cube level) with an "
+        "exact-arithmetic oracle. distinct = distinct canonical requests (a dg_block request stands for 256 colours)."
         % (n_rand, len(only16), len(rows), "" if ctx.quick else " = all 16,777,216 RGB colours")
     )
 
@@ -345,7 +437,12 @@ MANIFEST = {
     "palette (match_is_argmin, match_total, nearest_unique) and downgrade to standard/windows returns that argmin of the source triplet "
     "(downgrade_picks_nearest); truecolor->256 lands in 16..255, on the grey ramp / black / white when the saturation test says grey and for "
     "every r=g=b, else on the cube entry with coordinates (c+25)/51 (eight_bit_number_range, grey_on_ramp); SGR parameters are 39/49, "
-    "30-37/90-97, 40-47/100-107, 38;5;n, 38;2;r;g;b (ansi_codes_standard, ansi_codes_16_ranges, ansi_codes_after_downgrade). Palette side "
+    "30-37/90-97, 40-47/100-107, 38;5;n, 38;2;r;g;b (ansi_codes_standard, ansi_codes_16_ranges, ansi_codes_after_downgrade); get_truecolor is total on "
+    "well-formed colours for every theme with 16 ANSI colours and returns the triplet / EIGHT_BIT_PALETTE[n] / theme.ansi_colors[n] / WINDOWS_PALETTE[n] / "
+    "theme fg-bg (get_truecolor_spec, get_truecolor_sound, theme_init_spec), the colour a downgraded colour is displayed as is the palette entry at the "
+    "matched index (downgrade_then_truecolor_is_palette_entry, downgrade_windows_shows_matched_entry, downgrade_eight_bit_then_truecolor); "
+    "parse_rgb_hex inverts ColorTriplet.hex (parse_rgb_hex_roundtrip); blend_rgb with cross_fade k/2^n in [0,1] stays between its arguments "
+    "(blend_rgb_in_range, blend_rgb_endpoints). Palette side "
     "conditions (sizes 16/16/256, components <= 255) are re-proved by decide +kernel on the tables translated from rich/_palettes.py on every run. "
     "Tie: quick = all 32,896 (max,min) channel pairs (float facts directly and through Color.downgrade in every channel arrangement), all 256 "
     "channel values, all 256 numbers x 3 indexed types + default + ill-formed colours x 4 systems x fg/bg, 30k random RGB, ~85k colours at "
@@ -356,7 +453,7 @@ MANIFEST = {
     "theorems hold for every exception list, the list itself and the rounding formulas are validated exhaustively on every run, not proved. "
     "Palette.match compares integers where the code compares math.sqrt of them: justified by dist2_le (radicand <= 649,740) and an exhaustive "
     "per-run check that sqrt is strictly increasing on 0..700,000. functools.lru_cache is assumed transparent (cached vs uncached function - getattr(f, '__wrapped__', f) - compared). "
-    "get_truecolor is modelled for the default terminal theme only and has no theorem. Numbers/components are naturals: negative indices and "
+    "get_truecolor is modelled for arbitrary TerminalTheme objects (TerminalTheme.__init__ included) and compared under random custom themes; blend_rgb only for dyadic cross_fade k/2^n, parse_rgb_hex only on ASCII strings. Numbers/components are naturals: negative indices and "
     "components above 255 answer `unmodelled`. One genuine defect found in rich 9.10.0 as found: downgrade(STANDARD) renumbered 16-colour WINDOWS / EIGHT_BIT(<16) "
     "colours (8->7, 9->1, 10->2, 12->4); repaired in /repo by fix 2cec9e1 (= pending_fixes/C18-downgrade-standard-keeps-16-colour-index.diff), "
     "STD_VIA_PALETTE holds the repaired value 0; a regression would print VIOLATION at site downgrade:representable (slug "
